@@ -10,7 +10,7 @@ use super::*;
 /// the slice: together they cover every element, in order, and there is no
 /// chunk without a new element.
 macro_rules! chunks {
-    ($name:ident, $n:expr, $unwind:expr) => {
+    ($name:ident, $n:expr, $unwind:expr, $max_overlap:expr) => {
         #[kani::proof]
         #[kani::unwind($unwind)]
         fn $name() {
@@ -20,7 +20,7 @@ macro_rules! chunks {
             let chunk_size: usize = kani::any();
             let overlap: usize = kani::any();
             kani::assume(chunk_size >= 1 && chunk_size <= $n + 1);
-            kani::assume(overlap < chunk_size);
+            kani::assume(overlap < chunk_size && overlap <= $max_overlap);
             let stride = chunk_size - overlap;
             let slice = &data[..len];
             let base = slice.as_ptr() as usize;
@@ -63,8 +63,8 @@ macro_rules! chunks {
                 i += 1;
             }
             assert!(done);
-            kani::cover!(count >= 3 && overlap >= 1, "three overlapping chunks");
-            kani::cover!(count >= 2 && overlap >= 1 && (len - overlap) % stride != 0, "short final chunk with overlap");
+            kani::cover!(count >= 3 && overlap >= $max_overlap.min(1), "three chunks");
+            kani::cover!(count >= 2 && chunk_size > 1 && len % chunk_size != 0, "short final chunk");
             assert!(
                 remainder_overlap_ok,
                 "final partial chunk does not overlap the previous chunk by the requested amount"
@@ -72,8 +72,10 @@ macro_rules! chunks {
         }
     };
 }
-chunks!(c29_q_chunks_le_6, 6, 9);
-chunks!(c29_t_chunks_le_8, 8, 11);
+chunks!(c29_q_chunks_le_6, 6, 9, usize::MAX);
+// Plain chunking (overlap 0): unaffected by known finding F6, must verify completely.
+chunks!(c29_q_chunks_no_overlap_le_6, 6, 9, 0);
+chunks!(c29_t_chunks_le_8, 8, 11, usize::MAX);
 
 /// `subslice_offsets` returns the element range of a sub-slice.
 #[kani::proof]
